@@ -246,7 +246,11 @@ def _patch():
         _rec["engine"] = k.get("engine")
         arr = k.get("array", a[0] if a else None)
         ax = k.get("axis")
-        _rec["numblocks_axis"] = [int(arr.numblocks[i]) for i in ax] if arr is not None and ax is not None else None
+        by_ = k.get("by", a[1] if len(a) > 1 else None)
+        nbsrc = arr if hasattr(arr, "numblocks") else by_           # in-memory values take the chunks of the labels
+        off = (arr.ndim - nbsrc.ndim) if arr is not None and hasattr(nbsrc, "ndim") else 0
+        _rec["numblocks_axis"] = ([int(nbsrc.numblocks[i - off if i >= 0 else i]) for i in ax]
+                                  if hasattr(nbsrc, "numblocks") and ax is not None else None)
         return orig_agg(*a, **k)
 
     def eng_wrapper(by, agg):
@@ -309,7 +313,7 @@ def run_impl(c: dict, inp: dict | None = None) -> dict:
         if c["layout"] == "eager":
             a, b = arr, by
         else:
-            a = da.from_array(arr, chunks=inp["chunks"])
+            a = arr if c.get("extra") == "npvalues" else da.from_array(arr, chunks=inp["chunks"])
             if c.get("extra") == "misaligned":
                 b = da.from_array(by, chunks=-1) if c["bydask"] else by
             else:
@@ -493,8 +497,8 @@ def model_line(c: dict, inp: dict, plan: dict) -> str:
     arr, by = inp["array"], inp["by"]
     ax = inp["axis"]
     nax = by.ndim if ax is None else (1 if isinstance(ax, int) else len(ax))
-    arrdask = c["layout"] != "eager"
-    bydask = bool(c["bydask"]) and arrdask
+    bydask = bool(c["bydask"]) and c["layout"] != "eager"
+    arrdask = c["layout"] != "eager" and c.get("extra") != "npvalues"
     flat = by.reshape(-1)
     issorted = bool(plan.get("codes_sorted", False))      # `_issorted` of the integer codes `_choose_engine` received
     pref = plan.get("preferred") or "map-reduce"
